@@ -19,7 +19,7 @@ uninterpreted function (point, digests, claimed values, hasher, extra data) ↦ 
 ASSUMED, as the hypothesis `hm` of the theorems that need it: on slices of EQUAL length `multiExp` returns `(msm points scalars, nil)` for a
 function `msm` that does not depend on the old receiver nor on the config (C04's subject), and it does not write its arguments.
 NOT translated: `NewSRS` (the completeness theorem takes the SRS of the hand model `Model/KZG.newSRS`).
-Not modelled: panics (`eval` / `dividePolyByXminusA` on an empty slice; `Commit` / `Open` reject it before; `BatchOpenSinglePoint` on an empty list).
+Not modelled: panics (`eval` / `dividePolyByXminusA` on an empty slice; `Commit` / `Open` / `BatchOpenSinglePoint` reject it before).
 
 Abstraction / invariant: there is no hidden state. The generated defs are functions of their arguments; the abstraction from the generated
 types to the hand model is `ProvingKey.G1 ↦ pk`, `OpeningProof ↦ (H, ClaimedValue)`, `(x, nil) ↦ .ok x`, `(_, ErrInvalidPolynomialSize) ↦ .error
@@ -195,13 +195,14 @@ theorem C11open_bls24_315_batch_loop3 (res : KzgOpen_bls24_315.BatchOpeningProof
   eval_glue add mul zero res.ClaimedValues γ (KzgOpen_bls24_315.BatchOpenSinglePoint.loop3 zero add sub mul gzero multiExp res γ)
     (fun _ _ => rfl) (fun _ _ _ => rfl)
 
-/-- the generated `BatchOpenSinglePoint`, every path: digest-count error; size error (any polynomial empty or longer than the key); the claimed
+/-- the generated `BatchOpenSinglePoint`, every path: digest-count error; empty batch (ErrZeroNbDigests, /repo fix 51b9d00); size error (any polynomial empty or longer than the key); the claimed
 values `rVals`; the error of `deriveGamma` handed on; the quotient of the folded polynomial (`rQuotArr`) committed by the generated `Commit`
 (`H` = point at infinity when the quotient is empty) -/
 theorem C11open_bls24_315_batch_ref (polys : List (List F)) (digests : List G) (point : F) (hf : Hash)
     (pk : KzgOpen_bls24_315.ProvingKey F G) (dt : List (List UInt8)) :
     KzgOpen_bls24_315.BatchOpenSinglePoint zero add sub mul gzero multiExp deriveGamma polys digests point hf pk dt =
       if len digests ≠ len polys then (⟨gzero, []⟩, KzgOpen_bls24_315.ErrInvalidNbDigests)
+      else if len digests = 0 then (⟨gzero, []⟩, KzgOpen_bls24_315.ErrZeroNbDigests)
       else if (rSizes (len pk.G1) polys (-1)).2 = true then (⟨gzero, []⟩, KzgOpen_bls24_315.ErrInvalidPolynomialSize)
       else if (deriveGamma point digests (rVals zero (fun p => KzgOpen_bls24_315.eval zero add sub mul gzero multiExp p point) polys) hf dt).2 ≠ GoImp.Err.nil
         then (⟨gzero, []⟩, (deriveGamma point digests (rVals zero (fun p => KzgOpen_bls24_315.eval zero add sub mul gzero multiExp p point) polys) hf dt).2)
@@ -225,7 +226,9 @@ theorem C11open_bls24_315_batch_ref (polys : List (List F)) (digests : List G) (
   by_cases h1 : len digests ≠ len polys
   · simp only [KzgOpen_bls24_315.BatchOpenSinglePoint, if_pos h1]
   · have h1' : len digests = len polys := by simpa using h1
-    simp only [KzgOpen_bls24_315.BatchOpenSinglePoint, if_neg h1, C11open_bls24_315_batch_loop1]
+    by_cases h0 : len digests = 0
+    · simp only [KzgOpen_bls24_315.BatchOpenSinglePoint, if_neg h1, if_pos h0]
+    simp only [KzgOpen_bls24_315.BatchOpenSinglePoint, if_neg h1, if_neg h0, C11open_bls24_315_batch_loop1]
     by_cases h2 : (rSizes (len pk.G1) polys (-1)).2 = true
     · simp only [if_pos h2]
     · simp only [if_neg h2, C11open_bls24_315_batch_loop2, C11open_bls24_315_batch_loop4, C11open_bls24_315_batch_loop5, C11open_bls24_315_divide_ref]
@@ -369,21 +372,21 @@ theorem C11open_bls24_315_completeness
   rw [C11gen_bls24_315_verify, resOfBool_ok]
   exact hver
 
-/-- generated `BatchOpenSinglePoint` = `Model.KZG.batchOpenSinglePoint` for every non-empty list of polynomials with reduced coefficients and a
-reduced challenge: both error cases (number of digests, size of any polynomial), the claimed values, and `H` = the commitment of the quotient of
-the γ-folded polynomial (the point at infinity when every polynomial is constant). `deriveGamma` returns the challenge γ without error
-(hypothesis `hdg`; it is an uninterpreted parameter, its error is handed on: `C11open_bls24_315_batch_ref`). For `polys = []` the Go code panics
-(index out of range in a goroutine; `make` of negative length): not modelled. -/
+/-- generated `BatchOpenSinglePoint` = `Model.KZG.batchOpenSinglePoint` for every list of polynomials with reduced coefficients and a
+reduced challenge: the three error cases (number of digests, empty batch, size of any polynomial), the claimed values, and `H` = the commitment
+of the quotient of the γ-folded polynomial (the point at infinity when every polynomial is constant). `deriveGamma` returns the challenge γ without
+error (hypothesis `hdg`; it is an uninterpreted parameter, its error is handed on: `C11open_bls24_315_batch_ref`). -/
 theorem C11open_bls24_315_batch_model
     (hm : ∀ recv pts sc cfg, pts.length = sc.length → multiExp recv pts sc cfg = (msm r pts sc, GoImp.Err.nil))
     (deriveGamma : ℕ → List ℕ → List ℕ → Hash → List (List UInt8) → ℕ × GoImp.Err) (γ : ℕ)
     (polys : List (List ℕ)) (digests pk : List ℕ) (z : ℕ) (hf : Hash) (dt : List (List UInt8))
     (hdg : ∀ vals, deriveGamma z digests vals hf dt = (γ, GoImp.Err.nil))
-    (hne : polys ≠ []) (hp : ∀ p ∈ polys, ∀ c ∈ p, c < r) (hγ : γ < r) :
+    (hp : ∀ p ∈ polys, ∀ c ∈ p, c < r) (hγ : γ < r) :
     KzgOpen_bls24_315.BatchOpenSinglePoint 0 (addm r) (subm r) (mulm r) 0 multiExp deriveGamma polys digests z hf ⟨pk⟩ dt =
       match batchOpenSinglePoint r γ polys digests.length z pk with
       | .ok (H, vals) => (⟨H, vals⟩, GoImp.Err.nil)
       | .error .nbDigests => (⟨0, []⟩, KzgOpen_bls24_315.ErrInvalidNbDigests)
+      | .error .zeroDigests => (⟨0, []⟩, KzgOpen_bls24_315.ErrZeroNbDigests)
       | .error _ => (⟨0, []⟩, KzgOpen_bls24_315.ErrInvalidPolynomialSize) := by
   rw [C11open_bls24_315_batch_ref]
   unfold batchOpenSinglePoint
@@ -392,7 +395,15 @@ theorem C11open_bls24_315_batch_model
   · have h1' : len digests ≠ len polys := by simp only [len_eq]; omega
     simp only [if_pos h1', if_pos h1]
   · have h1' : ¬ (len digests ≠ len polys) := by simp only [len_eq]; omega
-    simp only [if_neg h1', if_neg h1, hpk]
+    by_cases hne : polys = []
+    · subst hne
+      have hd : digests = [] := List.eq_nil_of_length_eq_zero (by simpa using h1)
+      subst hd
+      simp [len]
+    have h0 : ¬ (len digests = 0) := by
+      have : polys.length ≠ 0 := by simpa using hne
+      simp only [len_eq]; omega
+    simp only [if_neg h1', if_neg h1, if_neg h0, hpk]
     have hbad := rSizes_bad_iff (pk.length) polys (-1)
     by_cases h2 : (rSizes ((pk.length : ℕ) : Int) polys (-1)).2 = true
     · have hany : (polys.any fun p => decide (p.length = 0 ∨ p.length > pk.length)) = true := by
@@ -457,7 +468,7 @@ theorem C11open_bls24_315_batch_completeness_k2
   simp only [List.map_cons, List.map_nil] at hvals
   subst hvals
   simp only [C11open_bls24_315_commit_model r multiExp hm, hc0, hc1]
-  rw [C11open_bls24_315_batch_model r multiExp hm deriveGamma γ [p0, p1] [c0, c1] _ z hf dt (hdg _) (by simp) hp hγ]
+  rw [C11open_bls24_315_batch_model r multiExp hm deriveGamma γ [p0, p1] [c0, c1] _ z hf dt (hdg _) hp hγ]
   simp only [List.length_cons, List.length_nil] at hbo ⊢
   rw [hbo]
   refine ⟨rfl, rfl, ?_⟩
